@@ -20,6 +20,7 @@ struct IN_t {
   unsigned char name, name2;           // which file is searched (0: "a", 1: "b")
   unsigned char is_dquote;
   unsigned char again;
+  unsigned char stale;
 } IN;
 struct IN_t nondet_IN(void);
 
@@ -172,3 +173,28 @@ void h_include_dquote_two_includers(void) {
   VCOVER();
 }
 void h_include_angle(void) { run_include(false); }
+
+// `#include_next <a>` inside the header d1/a: the search continues after directory 1 - the directory of the file that
+// contains the directive - whatever the global search position was left at by other includes in between (symbolic).
+static File file_d1a = {.name = "d1/a", .display_name = "d1/a", .file_no = 3, .contents = ""};
+void h_include_next_after_nested(void) {
+  setup();
+  __CPROVER_assume(IN.stale <= NDIR);
+  include_next_idx = IN.stale;                       // left behind by some nested #include
+  Token *h = mk(TK_PUNCT, "#", 1, true, false);
+  Token *kw = mk(TK_IDENT, "include_next", 12, false, false);
+  Token *lt = mk(TK_PUNCT, "<", 1, false, true);
+  Token *nm = mk(TK_IDENT, "a", 1, false, false);
+  Token *gt = mk(TK_PUNCT, ">", 1, false, false);
+  h->file = kw->file = lt->file = nm->file = gt->file = &file_d1a;
+  mk(TK_EOF, "", 0, true, false);
+  Token *out = NULL;
+  expect_no_diag = 1;
+  TRY(out = preprocess2(first_tok));
+  if (verif_diag) return;
+  VASSERT(include_calls == 1, "one file is included");
+  int want = first_hit(2, 0);
+  if (want >= 0) VASSERT(path_is(included_path, want, 0), "#include_next: first directory AFTER the one the current file was found in");
+  else VASSERT(included_path[0] == 'a' && included_path[1] == 0, "no later directory has it: the bare name is passed on (and fails to open)");
+  VCOVER();
+}
